@@ -63,6 +63,27 @@ let strtod_range (txt : int array) (i : int) : bool option =
     else if l <= 300 && t <= 300 then Some false
     else if l >= 310 || (t >= 310 && l >= -290) then Some true
     else None
+(* jbn_from_json / jbn_from_js as callers see them: (rc class or ok, nodes, depth); rootless = success without a node *)
+let jdoc_run js h =
+  let b = cstr0 (bytes_of_hex h) @ [Z0] in
+  let txt = Array.of_list (List.map int_of_z b) in
+  jsk_unsure := false;
+  let rng i = match strtod_range txt (int_of_z i) with Some v -> v | None -> jsk_unsure := true; false in
+  let r = jdoc_current js rng b in
+  if !jsk_unsure then None else Some r
+let jdoc_answer js h =
+  match jdoc_run js h with
+  | None -> "?"
+  | Some (Oob i) -> "OOB " ^ string_of_z i
+  | Some Fuel -> "FUEL"
+  | Some (Ok (o, st)) ->
+    (match o with
+     | JErr EJson -> "Ejson" | JErr ENest -> "Enest" | JErr ECp -> "Ecp" | JErr EUnq -> "Eunq"
+     | JAt _ -> "ok") ^ " " ^ string_of_z st.j_nodes ^ " " ^ string_of_z st.j_deep
+let rootless h =
+  match jdoc_run false h with
+  | Some (Ok (JAt _, st)) -> st.j_nodes = Z0
+  | _ -> false
 let jsk_answer js h =
   let b = cstr0 (bytes_of_hex h) @ [Z0] in
   let txt = Array.of_list (List.map int_of_z b) in
@@ -146,6 +167,7 @@ and handle1 = function
              | 'u' -> xunshift x (bytes_of_hex arg)
              | 's' -> xshift x (z_of_string arg)
              | 'p' -> xpop x (z_of_string arg)
+             | 'k' -> xclone x
              | _ ->
                let k = String.index arg ':' in
                let pos = z_of_string (String.sub arg 0 k) and d = bytes_of_hex (String.sub arg (k + 1) (String.length arg - k - 1)) in
@@ -172,6 +194,20 @@ and handle1 = function
        let os = function None -> "~" | Some s -> hex_of_bytes s in
        "ini" ^ String.concat "" (List.map (fun (Ev (s, n, v)) -> " [" ^ hex_of_bytes s ^ "|" ^ os n ^ "|" ^ os v ^ "]") evs)
        ^ " rc=" ^ string_of_z rc)
+  | ["jdoc"; h] -> jdoc_answer false h
+  | ["jsdoc"; h] -> jdoc_answer true h
+  (* the callers of jbn_from_json dereference *node: a success without a node is a NULL dereference there *)
+  | ["jbl"; h] -> if rootless h then "NULLROOT" else "?"
+  | ["jblpatch"; d; p] | ["jblmerge"; d; p] -> if rootless d || rootless p then "NULLROOT" else "?"
+  | "replace" :: d :: kv ->
+    let rec pairs = function k :: v :: r -> (cstr0 (bytes_of_hex k), cstr0 (bytes_of_hex v)) :: pairs r | _ -> [] in
+    let tbl = pairs kv in
+    (* the harness' mapper answers with the value of the FIRST table entry whose key is equal *)
+    let keys = List.map (fun (k, _) -> (k, Some (List.assoc k tbl))) tbl in
+    (match replace_current (cstr0 (bytes_of_hex d)) keys with
+     | Oob i -> "OOB " ^ string_of_z i
+     | Fuel -> "FUEL"
+     | Ok r -> "0 " ^ hex_of_bytes r)
   | ["jsk"; h] -> jsk_answer false h
   | ["jssk"; h] -> jsk_answer true h
   | ["sde"; h] ->
@@ -198,8 +234,8 @@ and handle1 = function
   | ["rem"; p; t; n] -> re_answer p t (int_of_string n)
   | ["re"; p; t] -> re_answer p t 16
   | ["facts"] ->
-    Printf.sprintf "ptr_tilde_strict=%b hex2bin_checks_max=%b atoi2_inf_bounded=%b num_clears_errno=%b num_big_as_double=%b strto_clears_errno=%b"
-      fact_ptr_tilde_strict fact_hex2bin_checks_max fact_atoi2_inf_bounded fact_num_clears_errno fact_num_big_as_double fact_strto_clears_errno
+    Printf.sprintf "ptr_tilde_strict=%b hex2bin_checks_max=%b atoi2_inf_bounded=%b num_clears_errno=%b num_big_as_double=%b strto_clears_errno=%b json_rejects_rootless=%b replace_skips_empty_key=%b"
+      fact_ptr_tilde_strict fact_hex2bin_checks_max fact_atoi2_inf_bounded fact_num_clears_errno fact_num_big_as_double fact_strto_clears_errno fact_json_rejects_rootless fact_replace_skips_empty_key
   | [] -> ""
   | l -> "?" ^ String.concat " " l
 let () = main_loop handle
